@@ -28,7 +28,7 @@ def add_encoders(reg):
     for f in ('left', 'right'):
         reg.add(Contract(C + '_%s_encode' % f, params={'x': 'int'}, requires=['0 <= x', 'x < ' + TWO2040],
                          ensures={'value': 'result == %s%s_encode(x)' % (S185, f), 'size': 'len(result) >= 2 and len(result) <= 256'},
-                         raises={}, modifies=[], result='bytes', options=opts(int_lemmas=[2040])))
+                         raises={}, modifies=[], result='bytes', opaque=[S185 + 'enc_n'], options=opts(int_lemmas=[2040])))
     # --- 2.3.2 encode_string.  The standard's domain 0 <= len(S) < 2**2040 bits holds for every CPython object (len <= 2**63 - 1,
     # engine option ssize_len), so the ValueError branch is dead: the contract says NO exception escapes.
     reg.add(Contract(C + '_encode_str', params={'x': 'buffer'}, raises={},
@@ -321,3 +321,48 @@ def units(prop, tier):
         u('hash.kmac.frames', kinit[:1] + [KMAC + '.update', KMAC + '.verify#bytearray'])
         u('hash.tuplehash.frames', [TUPLE + '.update'])
     return us
+
+
+# ====================================================================================================================
+# Trusted facts this area's proofs use beyond the callee contracts (all opt-in through contract options, vf/pyvc/models.py, ops.py):
+#   int_lemmas=[2040]  ground instances of (i) int.bit_length(): 2**(k-1) <= |x| < 2**k for x != 0 (Python documentation);
+#                      (ii) base-256 notation: be(s) < 256**len(s), a non-zero leading byte gives be(s) >= 256**(len(s)-1), and
+#                      i2osp(be(s), len(s)) == s;  (iii) strict monotonicity of 2**n between the applications met in the proof.
+#                      Used by _left_encode / _right_encode / K12 _length_encode only (with the assumed contract of long_to_bytes).
+#   ssize_len          len() of an existing CPython object is <= sys.maxsize.
+#   spec.sp800_185.enc_n facts: the standard's own definition of n (smallest positive integer with 2**(8n) > x).
+#   spec.hashprim: size facts of the uninterpreted primitives; THE assumed cryptographic fact: SHA3-256 (KMAC.verify) and keyed
+#                      BLAKE2-160 (all other verify()) are injective in the compared tag.
+#
+# NOT PROVED: KMAC_Hash.hexverify / hexdigest (and the hexverify/hexdigest of every class of this area): binascii.unhexlify / "%02x"
+#   formatting of symbolic text is outside the PYVC subset; hexverify is `self.verify(unhexlify(tobytes(hex_mac_tag)))`.
+# NOT PROVED: TupleHash.update(*data) with a non-bytes item: TypeError is raised AFTER the preceding items were absorbed (the
+#   object is changed by the failed call); items are typed bytes/bytearray/memoryview here, arities 0..3.
+# NOT PROVED: KMAC / TupleHash objects with mac_len / digest size > sys.maxsize (class invariant: such a tag cannot be produced,
+#   read() raises OverflowError; sizes >= 2**2037 would trip the `assert` of _right_encode).
+#
+# Mutation checks (tools/mut.py <prop> <file> <old> <new> --only <unit prefix>; exit 1 = VIOLATION on the named obligation):
+#   lib/Crypto/Hash/cSHAKE128.py
+#     _left_encode  `(x.bit_length() + 7) // 8` -> `+ 8`             exit 1  C03 _left_encode.raises_only.ValueError, ensures.value
+#     _right_encode `long_to_bytes(x) + bchr(num)` -> swapped         exit 1  C03 _right_encode.ensures.value (confirmed by native replay)
+#     _encode_str   `bitlen = len(x) * 8` -> `len(x)`                 exit 1  C03 _encode_str.ensures.value
+#     _bytepad      `npad = (length - len(to_pad) % length) % length` -> without the outer `% length`
+#                                                                     exit 1  C03 _bytepad.lemma.least / ensures.value (every w)
+#     __init__      `self._padding = 0x04` -> `0x1F`                  exit 1  C03 cSHAKE_XOF.__init__.ensures.domain
+#     __init__      `_encode_str(function) + _encode_str(custom)` -> swapped   exit 1  C03 cSHAKE_XOF.__init__.ensures.absorbed
+#     update        `if self._is_squeezing:` -> `if not ...`          exit 1  C10 cSHAKE_XOF.update.raises_iff.TypeError.only_if
+#     read          `c_size_t(length)` -> `c_size_t(length + 1)`      exit 1  C09 cSHAKE_XOF.read.call_pre.length_len_out
+#     _encode_str   benign: `nbits = len(x) * 8; bitlen = nbits`      exit 0
+#   lib/Crypto/Hash/KMAC128.py
+#     digest        `_right_encode(self.digest_size * 8)` -> `(self.digest_size)`   exit 1  C03 KMAC_Hash.digest.ensures.value
+#     __init__      `_bytepad(_encode_str(tobytes(key)), rate)` -> `_bytepad(tobytes(key), rate)`   exit 1  C03 KMAC_Hash.__init__.ensures.absorbed
+#     new           `if mac_len < 8:` -> `< 4`                        exit 1  C03 KMAC128.new.raises_iff.ValueError.if
+#     verify        `if mac1.digest() != mac2.digest():` -> `==`      exit 1  C03 KMAC_Hash.verify.raises_iff.ValueError.only_if / .if
+#     update        `if self._mac:` -> `if False:`                    exit 0  EQUIVALENT mutant: the inner cSHAKE object refuses with the same
+#                                                                             TypeError (invariant: _mac is not None ==> cshake is squeezing)
+#     verify        benign: `rnd = get_random_bytes(16); secret = rnd`  exit 0
+#   lib/Crypto/Hash/TupleHash128.py
+#     update        `_encode_str(item)` -> `item`                     exit 1  C03 TupleHash.update.ensures.absorbed
+#     new           `digest_bits < 64 or digest_bits % 8` -> `digest_bits < 64`   exit 1  C03 TupleHash128.new.raises_iff.ValueError.if
+#     update        `if self._digest is not None:` -> `is None`       exit 1  C10 TupleHash.update.raises_iff.TypeError.if
+#     digest        `_right_encode(..)` -> `_left_encode(..)`         exit 2  (name not imported in that module: undecided, not a pass)
